@@ -181,8 +181,46 @@ func c06PrimeEncodings(c *core.Ctx) {
 	}
 }
 
+// c06NotJSON: bodies sent as application/json that are not ONE JSON text (RFC 8259: a single value, white space around it):
+// they encode no value and must be refused whatever the schema.
+func c06NotJSON(c *core.Ctx) {
+	d, err := loadDoc(c06Doc(gen.S{"application/json": gen.S{"schema": gen.S{}}}, true))
+	if err != nil {
+		return
+	}
+	router, err := newGorilla(d)
+	if err != nil {
+		return
+	}
+	for _, raw := range []string{`{"a":"x"} trailing`, `{"a":"x"}{"a":"y"}`, `{"a":"x"}]`, `1 2`, `"s" "t"`, `[1] [2]`, `{} ,`, "{}\n{}", `{"a":"x"}` + "\x00", `nullnull`, `{"a":"x"} // c`, `{"a":"x"}  ` + "\n\t "} {
+		desc := "json body that is not one JSON text: " + raw
+		c.Begin(desc)
+		c.Eval()
+		verr, pi := c06Validate(router, "application/json", []byte(raw), &openapi3filter.Options{})
+		w := c06Witness{Part: "json-not-one-text", Header: "application/json", Body: raw, Required: true, Got: fmt.Sprint(verr), Want: "reject"}
+		if pi != nil {
+			c.Violate(core.PanicFeatures(pi), w, pi.Stack)
+			continue
+		}
+		c.Distinct(desc)
+		var probe any
+		isJSON := json.Unmarshal([]byte(raw), &probe) == nil // the reference: encoding/json on the whole body
+		c.Cover("json", fmt.Sprintf("whole-body-is-json=%v", isJSON))
+		if (verr == nil) != isJSON {
+			kind := "json_false_accept"
+			if isJSON {
+				kind = "json_false_reject"
+			}
+			c.Violate(map[string]string{"kind": kind, "keys": "", "options": "default", "failed": "not-one-json-text"}, w, desc+"\nlibrary: "+fmt.Sprint(verr))
+		}
+	}
+}
+
 func runC06(c *core.Ctx) {
 	c06PrimeEncodings(c)
+	if c.Shard == 0 {
+		c06NotJSON(c)
+	}
 	idx := 0
 	// ---- part A: selection ----
 	nk := len(c06Keys)
@@ -537,7 +575,9 @@ func c06FormShapes() []c06form {
 		{"arrays", gen.S{"type": "object", "properties": gen.S{"tags": gen.S{"type": "array", "items": str, "minItems": 2.0}, "ids": gen.S{"type": "array", "items": integer, "maxItems": 2.0}}},
 			[]gen.S{{"tags": gen.Arr("p", "q")}, {"tags": gen.Arr("p")}, {"ids": gen.Arr(1.0, 2.0)}, {"ids": gen.Arr(1.0, 2.0, 3.0)}, {"tags": gen.Arr("p", "q", "r"), "ids": gen.Arr(9.0)}}},
 		{"closed", gen.S{"type": "object", "properties": gen.S{"a": str}, "additionalProperties": false},
-			[]gen.S{{"a": "x"}, {}}},
+			[]gen.S{{"a": "x"}, {}, {"a": "x", "zz": "undeclared"}, {"zz": "undeclared"}}},
+		{"additional-typed", gen.S{"type": "object", "properties": gen.S{"a": str}, "additionalProperties": gen.S{"type": "string", "maxLength": 2.0}},
+			[]gen.S{{"a": "x", "zz": "ok"}, {"a": "x", "zz": "too long"}}},
 		{"readonly", gen.S{"type": "object", "properties": gen.S{"id": gen.S{"type": "string", "readOnly": true}, "a": str}, "required": gen.Arr("id", "a")},
 			[]gen.S{{"a": "x"}, {"a": "x", "id": "i"}, {"id": "i"}}},
 		// a property with a default that the client leaves out: the body is valid as sent
